@@ -158,7 +158,7 @@ class _Run:
             self.obs.append(self.observe())
 
     def _new_epoch(self):
-        return {'calls': {}, 'attempts': {}, 'outcomes': {}, 'events': {}, 'log': {}, 'lenient': False,
+        return {'calls': {}, 'attempts': {}, 'outcomes': {}, 'events': {}, 'log': {}, 'lenient': False, 'lenient_users': [],
                 'ups': {n: 0 for n in NAMES}, 'downs': {n: 0 for n in NAMES}}
 
     def now(self) -> int:
@@ -262,6 +262,7 @@ class _Run:
             'truth': self.truth(), 'session': self.session is not None, 'online': self.online,
             'tr_clean': self.tr_clean, 'app_bits': self.app_bits, 'watch': sorted(self.watch),
             'lost_sessions': self.lost_sessions, 'lenient': self.ep['lenient'],
+            'lenient_users': list(self.ep['lenient_users']),
         })
 
     # -- ops -------------------------------------------------------------------------------------
@@ -399,8 +400,13 @@ class _Run:
                 self.xfers[k] = None
                 self.tr_clean = False
                 if not any(x.username == t.username for x in self.mgr.transfers):
+                    # nobody but `remove` itself can withdraw the reason of this user now or at the next cycle; WHEN it
+                    # is withdrawn (here, or by a cycle that remembers) is the owner's business: from here on the exact
+                    # fold of requests is no reference for this user (the observable reasons after a cycle still are)
                     self.owner_step()
-                    self.ref_call(t.username, False, F_TR)       # nobody else can withdraw the reason of this user
+                    if t.username not in self.ep['lenient_users']:
+                        self.ep['lenient_users'].append(t.username)
+                    self.ref_call(t.username, False, F_TR)
             await self.after(m)
         elif kind == 'cycle':
             m = op[1]
@@ -757,8 +763,9 @@ def _monitor_truth(case: dict, res: dict, flag):
                         flag('C15-state-wrong',
                              f'{where}: quiescent in a session, every attempt answered "exists", state {u["state"]}, '
                              f'reasons {exp}', observed=u['state'], required='T' if exp else 'not T')
-            elif cp['lenient']:
-                # scripted, after an owner looked without a session: the fold of requests is no reference any more —
+            elif cp['lenient'] or n in cp['lenient_users']:
+                # scripted, after an owner looked without a session (or `remove` took a user's last transfer): the fold
+                # of requests is no reference any more —
                 # the last request made is still an AddUser iff a reason is held, and the state follows the last answer
                 c = _collapse(ep['attempts'].get(n, [])[:cp['nattempts'][n]])
                 if c.endswith('A') != (u['flags'] != 0):
@@ -820,7 +827,7 @@ def _monitor(case: dict, res: dict) -> list[Violation]:
                          f'a tracking task talking to the network', observed=u,
                          required={'flags': 0, 'state': 'U', 'gates': ''})
                 continue
-            if res['auto'] or cp.get('lenient'):
+            if res['auto'] or cp.get('lenient') or n in cp.get('lenient_users', ()):
                 continue            # free-running owners / an owner looked without a session: `_monitor_truth` only
             # AddUser/RemoveUser exactly on the edges of R_u (retries repeat the AddUser of their edge)
             if not E.startswith(C):
